@@ -14,7 +14,10 @@ META = {
                'unbounded symbolic rationals (no rounding on the path: polynomial identities)',
                'all 9 ordered pairs and 27 triples of temperature units; user tables in mapping and '
                'list form, forward only / reverse only / both directions, missing pairs, two registered '
-               'tables (fall-through in both registration orders), type without converter'],
+               'tables (fall-through in both registration orders), type without converter',
+               'concrete tables with int / Decimal / Fraction numbers asked repeatedly (sequences of 3-6 conversions in '
+               'both directions); separate converter instances with overlapping pairs (unregistered, removed, replaced, '
+               'other type); a converter registered 1-3 times and removed once'],
     'outside_bounds': ['tables with more than 3 units', 'converters that are not TableConverter instances (C12)'],
     'stubs': [],
     'assumptions': ['temperature oracle: K = C + 273.15, F = C * 9/5 + 32 (defining fixed points of the property text)'],
@@ -38,6 +41,10 @@ def jobs(tier, seed):
     for form in ('mapping', 'list'):
         for fl in ('dec', 'frac'):
             out.append({'fn': 'user_table', 'cfg': {'form': form, 'flav': fl}})
+    for form in ('mapping', 'list'):
+        out.append({'fn': 'concrete_table', 'cfg': {'form': form}})
+    out.append({'fn': 'separate_tables', 'cfg': {}})
+    out.append({'fn': 'registered_twice', 'cfg': {}})
     out.append({'fn': 'two_tables', 'cfg': {'order': 0}})
     out.append({'fn': 'two_tables', 'cfg': {'order': 1}})
     out.append({'fn': 'temp_pairs', 'cfg': {'pairs': [['°F', 'K']], 'flav': 'dec', 'canary': True}, 'canary': True})
@@ -167,6 +174,123 @@ def user_table(E, cfg):
     E.check(E.Iff(qy < qa, y < x * f + o), 'user-lt-agrees-with-table')
     E.check(E.Iff(qa < qy, (y - o) / f > x), 'user-lt-agrees-with-reverse-formula')
     E.observe('fwd', r.amount)
+
+
+NUMS = [('int', 5, 3), ('int-neg', -3, 7), ('decimal', '2.5', '-0.75'), ('fraction', Fraction(9, 7), Fraction(1, 3)),
+        ('int-offset0', 7, 0), ('int-factor1', 1, 11), ('pow2', 4, -2)]
+
+
+def concrete_table(E, cfg):
+    """tables with concrete numbers of every exact kind (plain int included); every conversion asked repeatedly:
+    the n-th answer is the first one"""
+    from decimalfp import Decimal
+    from quantity import Quantity, TableConverter
+    T, ua, ub, uc = _mk_type(E)
+    kind, f, o = E.choice('numbers', NUMS)
+    if kind == 'decimal':
+        f, o = Decimal(f), Decimal(o)
+    ff, oo = Fraction(f), Fraction(o)
+    rows = [(ua, ub, f, o)]
+    table = {(r[0], r[1]): (r[2], r[3]) for r in rows} if cfg['form'] == 'mapping' else rows
+    T.register_converter(TableConverter(table))
+    x = E.rational('x', 'dec')
+    y = E.rational('y', 'frac')
+    order = E.choice('order', ['fwd-first', 'rev-first', 'rev-only'])
+    steps = {'fwd-first': 'FRFRRF', 'rev-first': 'RFRRFF', 'rev-only': 'RRR'}[order]
+    for i, st in enumerate(steps):
+        if st == 'F':
+            E.check(Quantity(x, ua).convert(ub).amount == x * ff + oo, 'concrete-forward-formula',
+                    key='concrete:forward', info=[kind, order, i])
+            E.check(Quantity(y, ua).convert(ub).amount == y * ff + oo, 'concrete-forward-formula',
+                    key='concrete:forward', info=[kind, order, i])
+        else:
+            E.check(Quantity(x, ub).convert(ua).amount == (x - oo) / ff, 'concrete-reverse-formula',
+                    key='concrete:reverse', info=[kind, order, i])
+            E.check(Quantity(y, ub).convert(ua).amount == (y - oo) / ff, 'concrete-reverse-formula',
+                    key='concrete:reverse', info=[kind, order, i])
+    E.check(Quantity(x, ub).convert(ua).convert(ub).amount == x, 'concrete-round-trip', key='concrete:round-trip',
+            info=[kind, order])
+    qa, qb = Quantity(x, ua), Quantity(y, ub)
+    E.check(E.Iff(qa == qb, x * ff + oo == y), 'concrete-eq-agrees', key='concrete:eq', info=[kind, order])
+    E.check(E.Iff(qb < qa, y < x * ff + oo), 'concrete-lt-agrees', key='concrete:lt', info=[kind, order])
+    E.check(E.Iff(qa < qb, x < (y - oo) / ff), 'concrete-lt-agrees-reverse', key='concrete:lt', info=[kind, order])
+
+
+def separate_tables(E, cfg):
+    """a table converter knows exactly the pairs of its own table: other instances (registered, removed or never
+    registered, in list or mapping form) do not leak into it"""
+    from quantity import Quantity, TableConverter, UnitConversionError
+    import quantity.predefined as pre
+    T, ua, ub, uc = _mk_type(E)
+    x = E.rational('x', 'dec')
+    case = E.choice('case', ['unregistered-temperature', 'replaced-opposite-direction', 'other-type-table',
+                             'removed-table', 'unregistered-same-pair'])
+    form = E.choice('form', ['list', 'mapping'])
+
+    def mk(rows):
+        return TableConverter(rows if form == 'list' else {(r[0], r[1]): (r[2], r[3]) for r in rows})
+    if case == 'unregistered-temperature':
+        mk([(pre.CELSIUS, pre.KELVIN, 1, 273)])            # built, never registered
+        E.check(Quantity(x, pre.CELSIUS).convert(pre.KELVIN).amount == x + Fraction('273.15'),
+                'unregistered-table-does-not-change-temperature', key='separate:temperature')
+        E.check(Quantity(x, pre.KELVIN).convert(pre.CELSIUS).amount == x - Fraction('273.15'),
+                'unregistered-table-does-not-change-temperature', key='separate:temperature')
+        E.check(Quantity(0, pre.CELSIUS) == Quantity(Fraction('273.15'), pre.KELVIN)
+                and Quantity(Fraction('273.15'), pre.KELVIN) == Quantity(0, pre.CELSIUS),
+                'unregistered-table-does-not-change-temperature-eq', key='separate:temperature-eq')
+    elif case == 'replaced-opposite-direction':
+        old = mk([(ua, ub, 5, 3)])
+        T.register_converter(old)
+        E.check(Quantity(x, ua).convert(ub).amount == x * 5 + 3, 'old-table-forward', key='separate:old')
+        T.remove_converter(old)
+        new = mk([(ub, ua, Fraction(1, 4), 0)])
+        T.register_converter(new)
+        E.check(Quantity(x, ub).convert(ua).amount == x / 4, 'new-table-forward', key='separate:new-forward')
+        E.check(Quantity(x, ua).convert(ub).amount == x * 4, 'new-table-reverse', key='separate:new-reverse')
+    elif case == 'other-type-table':
+        T2 = C.mk_cls('TScale2')
+        va, vb = T2.new_unit('va'), T2.new_unit('vb')
+        T2.register_converter(mk([(va, vb, 2, 1)]))
+        T.register_converter(mk([(ua, ub, 3, 0)]))
+        E.check(Quantity(x, va).convert(vb).amount == 2 * x + 1, 'own-table', key='separate:own')
+        E.check(Quantity(x, ua).convert(ub).amount == 3 * x, 'own-table', key='separate:own')
+        C.expect_raises(E, lambda: Quantity(x, ua).convert(uc), UnitConversionError, 'missing-pair-raises')
+    elif case == 'removed-table':
+        t1 = mk([(ua, ub, 5, 3)])
+        t2 = mk([(ub, uc, 2, 0)])
+        T.register_converter(t1)
+        T.register_converter(t2)
+        E.check(Quantity(x, ua).convert(ub).amount == 5 * x + 3, 'both-registered', key='separate:both')
+        T.remove_converter(t1)
+        C.expect_raises(E, lambda: Quantity(x, ua).convert(ub), UnitConversionError, 'pair-of-removed-table-raises',
+                        [form])
+        E.check(Quantity(x, ub).convert(uc).amount == 2 * x, 'remaining-table-works', key='separate:remaining')
+        E.check(E.Not(Quantity(x, ua) == Quantity(5 * x + 3, ub)), 'pair-of-removed-table-eq-false',
+                key='separate:removed-eq')
+    else:
+        T.register_converter(mk([(ua, ub, 5, 3)]))
+        mk([(ua, ub, 7, 1)])                                   # same pair, other numbers, never registered
+        mk([(ub, ua, 2, 2)])
+        E.check(Quantity(x, ua).convert(ub).amount == 5 * x + 3, 'registered-table-decides', key='separate:decides')
+        E.check(Quantity(x, ub).convert(ua).amount == (x - 3) / 5, 'registered-table-decides', key='separate:decides')
+
+
+def registered_twice(E, cfg):
+    """registering a converter again has no effect, so one removal ends its applicability"""
+    from quantity import Quantity, TableConverter, UnitConversionError
+    T, ua, ub, uc = _mk_type(E)
+    x = E.rational('x', 'dec')
+    t = TableConverter([(ua, ub, 5, 3)])
+    n = E.choice('registrations', [1, 2, 3])
+    for _ in range(n):
+        T.register_converter(t)
+    E.check(len(list(T.registered_converters())) == 1, 'registered-once', key='twice:listed-once', info=[n])
+    E.check(Quantity(x, ua).convert(ub).amount == 5 * x + 3, 'registered-converts', key='twice:converts')
+    T.remove_converter(t)
+    C.expect_raises(E, lambda: Quantity(x, ua).convert(ub), UnitConversionError, 'removed-converter-not-applicable', [n])
+    C.expect_raises(E, lambda: Quantity(x, ua) < Quantity(x, ub), UnitConversionError, 'removed-converter-order-raises', [n])
+    E.check(E.Not(Quantity(x, ua) == Quantity(5 * x + 3, ub)), 'removed-converter-eq-false', key='twice:eq', info=[n])
+    C.expect_raises(E, lambda: T.remove_converter(t), ValueError, 'second-removal-raises', [n])
 
 
 def two_tables(E, cfg):
